@@ -88,6 +88,19 @@ def check_tensor(acc, x, dt, mode, layout, col_m, extract_diagonal=False,
   fn = jax.jit(roundtrip) if mode == "jit" else roundtrip
   qi, bs, f, qi2, f2, diag = [np.asarray(a) for a in fn(jnp.asarray(x))]
   acc.transitions += 3
+  if f.shape != x.shape or qi.shape != x.shape or \
+      bs.shape != tuple(x.shape[1:]) or f2.shape != x.shape:
+    # one bucket per column: the bucket array is laid out like x[0]
+    acc.states += 1
+    acc.outcome("viol_layout")
+    acc.violation(
+        "C11|%s|%s|%s|layout|%s|%s" % (dt, mode, layout, x.shape, tag),
+        "tensor of shape %s: integers %s, bucket sizes %s (one per column "
+        "means %s), dequantized %s" % (x.shape, qi.shape, bs.shape,
+                                       tuple(x.shape[1:]), f.shape),
+        {"dtype": dt, "mode": mode, "layout": layout, "shape": list(x.shape),
+         "tag": tag}, kf={"input_class": "regular", "kind": "layout"})
+    return
   x64 = x.astype(np.float64)
   f64 = f.astype(np.float64)
   if extract_diagonal:
@@ -209,6 +222,9 @@ def plan(tier, seed):
       tasks.append({"name": "%s/%s/diag" % (dt, mode), "kind": "diag",
                     "dtype": dt, "mode": mode, "part": "diag_const_zero",
                     "profile": {"x64": False}})
+  for dt in ["int8", "int16"]:
+    tasks.append({"name": "%s/shapes" % dt, "kind": "shapes", "dtype": dt,
+                  "part": "unit_axes", "profile": {"x64": False}})
   tasks.append({"name": "passthrough", "kind": "passthrough",
                 "part": "passthrough", "profile": {"x64": False}})
   return {
@@ -220,7 +236,8 @@ def plan(tier, seed):
               "column with non-zero max-abs",
       "bounds": {"tier": tier},
       "assumptions": ["XLA CPU backend (flush-to-zero, observed)",
-                      "float32 inputs; rank <= 3"],
+                      "float32 inputs; rank <= 3; every shape over dims "
+                      "{1,2,3} for the layout of integers/bucket sizes"],
   }
 
 
@@ -290,6 +307,24 @@ def run_task(task):
         x.flat[0] = -m
         check_tensor(acc, x, dt, task["mode"], "near_overflow%s" % (shape,),
                      None, tag="m%r" % m)
+  elif task["kind"] == "shapes":
+    # every shape of rank 1..3 over dims {1,2,3} (unit axes in every
+    # position), columns at scales 2^-20 .. 2^20 with sign changes and zeros
+    import itertools
+    dt = task["dtype"]
+    nb = nbuckets(dt)
+    for rank in (1, 2, 3):
+      for shape in itertools.product((1, 2, 3), repeat=rank):
+        ncol = int(np.prod(shape[1:])) if rank > 1 else 1
+        scales = [2.0**(20 * ((j % 3) - 1)) * (1 + j / 8.0)
+                  for j in range(ncol)]
+        base = np.asarray([1.0, -0.37, 0.0][:shape[0]])
+        cols = np.stack([np.roll(base, j) * sc if shape[0] > 1 else
+                         base * sc for j, sc in enumerate(scales)], axis=1)
+        x = cols.reshape(shape).astype(np.float32)
+        for mode in ("eager", "jit"):
+          check_tensor(acc, x, dt, mode, "shape%s" % (shape,), None,
+                       tag="unit_axes")
   else:
     import jax.numpy as jnp
     from precondition.quantization_utils import QuantizedValue
